@@ -5,14 +5,19 @@ their character codes (`_` = empty string); a separator as its character code.
 
   fix  <w> <d> <n>                      → hex("{:w.df}")  m/d of float(strip(...))
   time <pfmt> <rfmt> Y M D h m s ms     → hex(str(t))  then `Y M D h m s ms` read back, or `none`
-  csv  <geo> <idE> <idN> <idU> <idT> <sep> <h> <hdrR> <pfmt> <rfmt> <naf> <rows> <srid> <names>
-       rows: `x,y,z,Y,M,D,h,m,s,ms[,af…];…`
+  csv  <geo> <idE> <idN> <idU> <idT> <sep> <h> <hdrR> <pfmt> <rfmt> <naf> <rows> <srid> <names> [<readAll>]
+       rows: `x,y,z,Y,M,D,h,m,s,ms[,af…];…`   af: `<int>` | `D<n>:<d>` (float n/10^d) | `S<hex>` (str) | `nan` | `inf` | `-inf`
                                         → W:<hex text>|werr:<kind>   R:ok <rows>|err:<kind>
+                                          with readAll = 1:  R:ok <rows> A:<names>|<values> (or R:err:<kind>)
+                                          with readAll = 2:  written through the front end TrackWriter.writeToCsv
        read rows: `xm/xd,ym/yd,zm/zd,Y,M,D,h,m,s,ms;…`
+       names `<hex>,…`; values `v,…;…` per observation, v: `m/d` | `nan` | `inf` | `-inf` | `S<hex>`
   net  <sep> <h> <hdrR> <d> <posDir> <edges>     edges: `id,src,tgt,orient,x:y|x:y…;…` (ids in hex)
                                         → W:<hex> R:ok <edges> N:<nodes> | R:err:<kind>
   wkt  <d> <pts>   pts: `x:y|x:y…`      → W:<hex> R:ok x:y:z|… | R:err:<kind>
-  gpx  <geo> <rfmt> <name> <rows>       → W:<hex> R:ok <track>|<track> | R:err:<kind> -/
+  gpx  <geo> <rfmt> <name> <rows>       → W:<hex> R:ok <track>|<track> | R:err:<kind>
+  wktparse <hex text>                   → ok x:y:z|… | err:<kind>        (TrackReader.parseWkt on any text)
+  gpxaf <geo> <rfmt> <name> <naf> <names> <rows>   the same with `af=True`: names `<hex>,…`, rows with af tokens -/
 namespace TV.Drv.C13
 open TV.TextIO TV.ObsTime TV.Drv
 
@@ -52,16 +57,36 @@ def snum? (s : String) : Option SNum :=
   | '-' :: r => (String.ofList r).toNat?.map (fun m => ⟨true, m⟩)
   | _ => s.toNat?.map (fun m => ⟨false, m⟩)
 
-def rowOf? (naf : Nat) (s : String) : Option (Row × List Int) :=
+def afOf? (s : String) : Option AFVal :=
+  match s.toList with
+  | 'D' :: r =>
+    match splitTok (String.ofList r) ':' with
+    | [n, d] => do
+      let n ← n.toInt?
+      let d ← d.toNat?
+      pure (.dec d n)
+    | _ => none
+  | 'S' :: r => (unhex? (String.ofList r)).map AFVal.str
+  | _ => if s == "nan" then some .nan else if s == "inf" then some (.inf false) else if s == "-inf" then some (.inf true)
+         else s.toInt?.map AFVal.int
+
+def showAF : AFRead → String
+  | .num v => showDec v
+  | .nan => "nan"
+  | .inf neg => if neg then "-inf" else "inf"
+  | .str s => "S" ++ toHex s
+
+def rowOf? (naf : Nat) (s : String) : Option (Row × List AFVal) :=
   match splitTok s ',' with
   | x :: y :: z :: rest =>
     if rest.length = 7 + naf then do
       let x ← snum? x
       let y ← snum? y
       let z ← snum? z
-      let r ← rest.mapM String.toInt?
-      let t ← stampOf? (r.take 7)
-      pure (⟨x, y, z, t⟩, r.drop 7)
+      let r ← (rest.take 7).mapM String.toInt?
+      let t ← stampOf? r
+      let afs ← (rest.drop 7).mapM afOf?
+      pure (⟨x, y, z, t⟩, afs)
     else none
   | _ => none
 
@@ -86,6 +111,32 @@ def edgeOf? (s : String) : Option NEdge :=
 def showREdge (e : REdge) : String :=
   s!"{toHex e.id},{toHex e.src},{toHex e.tgt},{e.orient},{joinWith "|" (e.geom.map showV3)}"
 
+def handleCsv (geo ie iN iu it sep h hr pf rf naf rows srid names ra : String) : String :=
+  match geo.toNat?, ie.toInt?, iN.toInt?, iu.toInt?, it.toInt?, sepOf? sep, h.toNat?, hr.toNat? with
+  | some geo, some ie, some iN, some iu, some it, some sep, some h, some hr =>
+    match unhex? pf, unhex? rf, naf.toNat?, unhex? srid, (splitTok names ',').mapM unhex? with
+    | some pf, some rf, some naf, some srid, some names =>
+      match (splitTok rows ';').mapM (rowOf? naf) with
+      | some rws =>
+        if ie < -1 ∨ iN < -1 ∨ iu < -1 ∨ it < -1 then "bad-request" else
+        let f : CsvFmt := ⟨ie, iN, iu, it, sep⟩
+        match (if ra == "2" then writeToCsv f (geo == 1) (tokenize pf) h (rws.map (fun x => x.1)) srid
+                 else writeToFile f (geo == 1) (tokenize pf) h naf rws srid names) with
+        | .error e => s!"werr:{e} R:none"
+        | .ok text =>
+          let r := if ra == "1" then
+              match readCsvAll f (tokenize rf) hr text with
+              | .ok (rs, nms, fs) => "ok " ++ joinWith ";" (rs.map showRRow) ++ " A:" ++ joinWith "," (nms.map toHex) ++ "|"
+                  ++ joinWith ";" (fs.map (fun (l : List AFRead) => joinWith "," (l.map showAF)))
+              | .error e => s!"err:{e}"
+            else match readCsv f (tokenize rf) hr text with
+              | .ok rs => "ok " ++ joinWith ";" (rs.map showRRow)
+              | .error e => s!"err:{e}"
+          s!"W:{toHex text} R:{r}"
+      | none => "bad-request"
+    | _, _, _, _, _ => "bad-request"
+  | _, _, _, _, _, _, _, _ => "bad-request"
+
 def handle (cmd : String) (args : List String) : String :=
   match cmd, args with
   | "fix", [w, d, n] =>
@@ -106,24 +157,9 @@ def handle (cmd : String) (args : List String) : String :=
       s!"{toHex s} {back}"
     | _, _, _ => "bad-request"
   | "csv", [geo, ie, iN, iu, it, sep, h, hr, pf, rf, naf, rows, srid, names] =>
-    match geo.toNat?, ie.toInt?, iN.toInt?, iu.toInt?, it.toInt?, sepOf? sep, h.toNat?, hr.toNat? with
-    | some geo, some ie, some iN, some iu, some it, some sep, some h, some hr =>
-      match unhex? pf, unhex? rf, naf.toNat?, unhex? srid, (splitTok names ',').mapM unhex? with
-      | some pf, some rf, some naf, some srid, some names =>
-        match (splitTok rows ';').mapM (rowOf? naf) with
-        | some rws =>
-          if ie < -1 ∨ iN < -1 ∨ iu < -1 ∨ it < -1 then "bad-request" else
-          let f : CsvFmt := ⟨ie, iN, iu, it, sep⟩
-          match writeToFile f (geo == 1) (tokenize pf) h naf rws srid names with
-          | .error e => s!"werr:{e} R:none"
-          | .ok text =>
-            let r := match readCsv f (tokenize rf) hr text with
-              | .ok rs => "ok " ++ joinWith ";" (rs.map showRRow)
-              | .error e => s!"err:{e}"
-            s!"W:{toHex text} R:{r}"
-        | none => "bad-request"
-      | _, _, _, _, _ => "bad-request"
-    | _, _, _, _, _, _, _, _ => "bad-request"
+    handleCsv geo ie iN iu it sep h hr pf rf naf rows srid names "0"
+  | "csv", [geo, ie, iN, iu, it, sep, h, hr, pf, rf, naf, rows, srid, names, ra] =>
+    handleCsv geo ie iN iu it sep h hr pf rf naf rows srid names ra
   | "net", [sep, h, hr, d, pd, edges] =>
     match sepOf? sep, h.toNat?, hr.toNat?, d.toNat?, pd.toInt?, (splitTok edges ';').mapM edgeOf? with
     | some sep, some h, some hr, some d, some pd, some es =>
@@ -152,5 +188,25 @@ def handle (cmd : String) (args : List String) : String :=
         | .error e => s!"err:{e}"
       s!"W:{toHex text} R:{r}"
     | _, _, _, _ => "bad-request"
+  | "wktparse", [text] =>
+    match unhex? text with
+    | some t =>
+      match parseWkt t with
+      | .ok vs => "ok " ++ joinWith "|" (vs.map showV3)
+      | .error e => s!"err:{e}"
+    | none => "bad-request"
+  | "gpxaf", [geo, rf, name, naf, names, rows] =>
+    match geo.toNat?, unhex? rf, unhex? name, naf.toNat?, (splitTok names ',').mapM unhex? with
+    | some geo, some rf, some name, some naf, some names =>
+      match (splitTok rows ';').mapM (rowOf? naf) with
+      | some rws =>
+        if names.length ≠ naf then "bad-request" else
+        let text := gpxBodyAF name (rws.map (fun ra => (⟨ra.1.x, ra.1.y, ra.1.z, ra.1.t⟩, names.zip ra.2)))
+        let r := match readGpx (tokenize rf) (geo == 1) text with
+          | .ok ts => "ok " ++ joinWith "|" (ts.map (fun (t : List RRow) => joinWith ";" (t.map showRRow)))
+          | .error e => s!"err:{e}"
+        s!"W:{toHex text} R:{r}"
+      | none => "bad-request"
+    | _, _, _, _, _ => "bad-request"
   | _, _ => "bad-request"
 end TV.Drv.C13
